@@ -136,3 +136,55 @@ def usable(case: dict[str, Any]) -> bool:
             if p.endswith((".ini", ".toml", ".cfg")) or "plugin" in p:
                 return False
     return True
+
+
+TRANSFORMS = ["forward", "revert_first", "revert_prev", "skip_step", "one_file_at_a_time", "touch_noise"]
+
+
+def trees_of(case: dict[str, Any]) -> list[dict[str, str]]:
+    trees = [dict(case["steps"][0])]
+    for d in case["steps"][1:]:
+        t = dict(trees[-1])
+        for p, txt in d.items():
+            if txt is None:
+                t.pop(p, None)
+            else:
+                t[p] = txt
+        trees.append(t)
+    return trees
+
+
+def delta(a: dict[str, str], b: dict[str, str]) -> list[dict[str, Any]]:
+    ops: list[dict[str, Any]] = []
+    for p in sorted(set(a) - set(b)):
+        ops.append({"e": "delete", "path": p})
+    for p in sorted(b):
+        if a.get(p) != b[p]:
+            ops.append({"e": "write", "path": p, "text": b[p]})
+    return ops
+
+
+def transform_history(case: dict[str, Any], tr: str, rng: Any) -> tuple[dict[str, str], list[dict[str, Any]]]:
+    """New history derived from a multi-step corpus case: (initial tree, steps of file-level ops)."""
+    trees = trees_of(case)
+    seq = list(range(len(trees)))
+    if tr == "revert_first":
+        seq = seq + [0]
+    elif tr == "revert_prev":
+        seq = seq + [max(0, len(trees) - 2), len(trees) - 1]
+    elif tr == "skip_step" and len(trees) > 2:
+        drop = rng.randrange(1, len(trees) - 1)
+        seq = [i for i in seq if i != drop]
+    steps = []
+    prev = trees[seq[0]]
+    for i in seq[1:]:
+        ops = delta(prev, trees[i])
+        if tr == "one_file_at_a_time" and len(ops) > 1:
+            for op in ops:
+                steps.append({"edits": [op], "gap_s": 2.0, "run": True})
+        else:
+            if tr == "touch_noise" and prev:
+                ops = ops + [{"e": "touch", "path": rng.choice(sorted(prev))}]
+            steps.append({"edits": ops, "gap_s": 2.0, "run": True})
+        prev = trees[i]
+    return trees[seq[0]], steps
